@@ -26,6 +26,7 @@ POOL = {
     "r4": (["H", "C"], ["CH"], (-1.0, -1.0), 100, "C"),  # r2 with permuted reactants: equal
     "r4w": (["H", "C"], ["CH"], (10.0, 300.0), 100, "E"),  # other window: not equal
     "r5": (["He+", "e-"], ["He"], (-1.0, -1.0), 100, "F"),  # species outside every allowed list
+    "r6": (["He+", "E"], ["He"], (-1.0, -1.0), 100, "H"),  # the electron in its other spelling (only used by the extend inputs)
     # two identical lines of a KIDA file
     "f0": (["H2", "C"], ["CH", "H"], (10.0, 300.0), 100, "G"),
     "f1": (["H2", "C"], ["CH", "H"], (10.0, 300.0), 100, "G"),
@@ -152,7 +153,7 @@ class Model:
             # neutral gas species of the reactions currently held, sorted by name
             sp = sorted(self.reactants() | self.products())
             for s in sp:
-                if not s.startswith("#") and not s.endswith(("+", "-")) and s != "e-":
+                if not s.startswith("#") and not s.endswith(("+", "-")) and s not in ("e-", "E"):
                     self.add(derived("dep", s))
         elif op == "append:thermal":
             sp = sorted(self.reactants() | self.products())
@@ -530,7 +531,7 @@ def run(ctx):
         nsp += 1
         ctx.absorb(v)
     # CLI
-    inputs = [("r0", "r1"), ("r0", "r2", "r4", "r3"), ("r2", "r2", "r0", "r5")]
+    inputs = [("r0", "r1"), ("r0", "r2", "r4", "r3"), ("r2", "r2", "r0", "r5"), ("r0", "r6")]
     flagsets = [fs for n in range(0, 4) for fs in itertools.combinations(["remove-duplicate", "append-depletion", "append-thermal-desorption"], n)]
     cli = [(i, inp, fs, rm) for i, (inp, fs, rm) in enumerate(itertools.product(inputs, flagsets, [None, "H", "CH", "keep:H,H2", "keep:H, C, CH"]))]
     ncli = 0
@@ -554,7 +555,7 @@ def run(ctx):
         "samples": [{"menu": k, "histories": r.samples} for k, r in results.items()],
         "evaluations": trans + nav + ncli + nsp,
         "distinct_nontrivial": states,
-        "rule": "BFS over operation histories on real Network objects: full 26-operation menu to depth 3 (quick) / 5 (thorough), reduced 12-operation menu to depth 5 (quick) / 7 (thorough); every transition executes the real method and is compared with the reference model; plus allowed-setter vs constructor on all add sequences <=3, plus `naunet extend` on 3 inputs x 8 flag sets x 3 remove-species values",
+        "rule": "BFS over operation histories on real Network objects: full 26-operation menu to depth 3 (quick) / 5 (thorough), reduced 12-operation menu to depth 5 (quick) / 7 (thorough); every transition executes the real method and is compared with the reference model; plus allowed-setter vs constructor on all add sequences <=3, plus `naunet extend` on 4 inputs (one spelling the electron E) x 8 flag sets x 3 remove-species values",
         "levels": {k: r.per_level for k, r in results.items()},
         "depth_completed": {k: r.depth_completed for k, r in results.items()},
         "disabled_transitions": sum(r.disabled for r in results.values()),
